@@ -495,6 +495,33 @@ def _r204(ctx: Ctx, gmi, tables) -> None:
                         bad = bad or f"response x={v['x']!r}, z={v['z']!r}; expected the first / second half of decode()"
             ctx.ob('R20.4', site, f'send_correction(decoder="{dname}", noise deformation={noise_def})', bad is None, bad or '',
                    key=f'send_correction|{dname}|{noise_def}')
+    # decode histories: the decoder built for a request is the one a fresh server would build, whatever decoder the
+    # previous request used (options of one decoder must not leak into the next constructor call)
+    def dreq(name):
+        return {'Lx': 3, 'Ly': 3, 'Lz': 3, 'code_name': 'Toric 3D', 'code_deformation_name': 'None',
+                'syndrome': [0, 1, 0], 'p': 0.07, 'noise_deformation_name': 'None', 'max_bp_iter': 11,
+                'alpha': 0.3, 'beta': 0.2, 'decoder': name, 'error_model': 'Pure Z'}
+
+    def built(outs):
+        if len(outs) != 1 or outs[0].kind != 'return':
+            return ('fails', repr(outs))
+        v, ev = outs[0].value
+        return [(e[1], len(e[2]), sorted((k, repr(x)) for k, x in e[3].items())) for e in ev if e[0] == 'decoder']
+    for second in sorted(decoders):
+        fn, outs0 = run_handler('send_correction', dreq(second))
+        want = built(outs0)
+        bad = None
+        for first in sorted(decoders):
+            if first == second:
+                continue
+            _, outs1 = run_handler('send_correction', dreq(second), before=[('send_correction', dreq(first))])
+            got = built(outs1)
+            if got != want:
+                bad = (f'after a "{first}" request the decoder is built as {got!r}; a fresh server builds {want!r}')
+                break
+        ctx.ob('R20.4', site_of(gmi, fn), f'send_correction(decoder="{second}") after a request for any other decoder: same '
+                                          f'constructor call as on a fresh server', bad is None, bad or '',
+               key=f'send_correction|history[{second}]')
     # send_random_errors
     req = {'Lx': 3, 'Ly': 3, 'Lz': 3, 'code_name': 'Toric 3D', 'code_deformation_name': 'None', 'p': 0.07,
            'noise_deformation_name': 'None', 'error_model': 'Depolarizing'}
